@@ -221,3 +221,4 @@ contract(INS + ':Instruction.__init__', name='variant-order', props=['C13'],
                                ' elems(self._variants)[0]._variant_config == instruction_config)',
                                f'forall(lambda j: implies(0 <= j and j < i, elems(self._variants)[{ROOT} + j]._variant_config'
                                ' == cfg_item(instruction_config["variants"], j)))'])})
+
